@@ -404,6 +404,10 @@ static bool usable(Ctx& c, PeerS* p);
 // EVERY open (unfinished) block EVERY connected candidate peer has a FINISHED transfer left in Block::m_transfers
 // (so Block::insert refuses it) -- and at least one piece went through do_all_failed (a hash failure happened).
 static bool stall_is_stale(Ctx& c) {
+  // Per open block a connected peer is either already asked (queued / transferring: the library is waiting for it),
+  // or refused by Block::insert because a FINISHED transfer of it is left in m_transfers (stale), or a free candidate.
+  // The known stall: no free candidate anywhere, no honest peer is sitting on a request, and at least one honest,
+  // unchoking peer is refused by a stale transfer.
   Torrent* T = c.T;
   if (c.n_hash_fail == 0) return false;
   auto* tl = T->main()->delegator()->transfer_list();
@@ -411,22 +415,28 @@ static bool stall_is_stale(Ctx& c) {
   for (uint32_t i = 0; i < bits.size(); i++)
     if (bits[i] != '1' && tl->find(i) == tl->end()) return false;
   if (torrent::ThreadMain::thread_main()->hash_queue()->has(hq_id(T))) return false;
-  bool any_open = false;
+  bool any_open = false, honest_refused = false;
   for (torrent::BlockList* bl : *tl)
     for (auto& blk : *bl) {
       if (blk.is_finished()) continue;
       any_open = true;
-      if (!blk.queued()->empty() || blk.leader() != nullptr) return false;
       for (auto& p : c.peers) {
         if (!usable(c, p.get())) continue;
-        bool has = false;
-        for (auto* t : *blk.transfers())
-          if (t->peer_info() == p->info && t->is_finished() && !t->is_valid()) has = true;
-        if (!has) return false;
+        bool honest = p->variant == 0 && !p->choking;
+        bool asked = false, stale = false;
+        for (auto* t : *blk.queued()) if (t->peer_info() == p->info) asked = true;
+        for (auto* t : *blk.transfers()) {
+          if (t->peer_info() != p->info) continue;
+          if (t->is_finished() && !t->is_valid()) stale = true; else asked = true;
+        }
+        if (asked) { if (honest) return false; continue; }   // an honest peer never sits on a request in the F phase
+        if (!stale) return false;                            // a free candidate that is not asked: a different stall
+        if (honest) honest_refused = true;
       }
     }
-  return any_open;
+  return any_open && honest_refused;
 }
+
 // A verdict on a piece to which p supplied a block may disconnect p (mark_failed_peers /
 // mark_and_disconnect_if_single_peer / erase_seeders) before the bytes p is about to send are read, and the
 // recorded order [stimulus, verdict] would then be wrong: let such verdicts arrive first.
